@@ -19,6 +19,10 @@
 #include "nmtools/array/array/ufuncs/sqrt.hpp"
 #include "nmtools/array/array/ufuncs/floor.hpp"
 #include "nmtools/array/array/ufuncs/ceil.hpp"
+#include "nmtools/array/array/activations/leaky_relu.hpp"
+#include "nmtools/array/array/activations/prelu.hpp"
+#include "nmtools/array/array/activations/hardshrink.hpp"
+#include "nmtools/array/array/activations/softshrink.hpp"
 #include <cmath>
 #include "nmtools/utility/unwrap.hpp"
 namespace simd = na::simd; using nm::None;
@@ -98,12 +102,32 @@ void ob_c12c_unary(const tarr<T,N>& a)
             OBLIGE("C12.eval.unary.element_is_the_scalar_function_of_the_element", same_val<T>((T)r(I.value), want), tag, N, I.value);
         });
 }
+// ---- activations with a parameter: the SIMD result is, bit for bit, the result of the default (scalar) evaluator on the same operands
+// (the oracle is the library's own scalar path: this is the property's statement, not a re-derived formula)
+template <class T, size_t N, int OP>
+void ob_c12c_activation(const tarr<T,N>& a, T p)
+{
+    PINT(a, N);
+    constexpr long tag = (long)sizeof(T) * 10 + OP;
+    auto ms = [&](){ if constexpr (OP == 0) return na::leaky_relu(a, p); else if constexpr (OP == 1) return na::prelu(a, p); else if constexpr (OP == 2) return na::hardshrink(a, p); else return na::softshrink(a, p); }();
+    auto mr = [&](){ if constexpr (OP == 0) return na::leaky_relu(a, p, C12_CTX); else if constexpr (OP == 1) return na::prelu(a, p, C12_CTX); else if constexpr (OP == 2) return na::hardshrink(a, p, C12_CTX); else return na::softshrink(a, p, C12_CTX); }();
+    OBLIGE("C12.eval.has_value", nm::has_value(mr) && nm::has_value(ms), tag, N);
+    auto r = nm::unwrap(mr); auto sc = nm::unwrap(ms);
+    OBLIGE("C12.eval.activation.shape", cv::shape_is<N>(r) && cv::shape_is<N>(sc), tag, N);
+    if (cv::shape_is<N>(r) && cv::shape_is<N>(sc))
+        for_<N>([&](auto I){ OBLIGE("C12.eval.activation.simd_element_is_the_scalar_evaluators_element", same_val<T>((T)r(I.value), (T)sc(I.value)), tag, N, I.value); });
+}
+#define A1(T,N,OP) template void ob_c12c_activation<T,N,OP>(const tarr<T,N>&, T);
 #define U1(T,N,OP) template void ob_c12c_unary<T,N,OP>(const tarr<T,N>&);
 #define B1(T,N,OP) template void ob_c12c_binary1<T,N,OP>(const tarr<T,N>&, const tarr<T,N>&);
 #define B2(T,R,C,LR,LC,RR,RC) template void ob_c12c_binary2<T,R,C,LR,LC,RR,RC>(const rarr<T,LR,LC>&, const rarr<T,RR,RC>&, const rarr<T,R,C>&);
 #define OTT(T,NA,NB) template void ob_c12c_outer<T,NA,NB>(const rarr<T,NA>&, const rarr<T,NB>&, const rarr<T,NA,NB>&);
 #define OT(NA,NB) OTT(int,NA,NB)
 #ifndef C12C_NO_INSTANCES
+A1(float,5,0) A1(float,9,1) A1(float,5,2) A1(double,3,0) A1(double,5,1) A1(double,3,2)
+// (softshrink is not stated: for a NaN element the packed path keeps NaN - every comparison is false - while the scalar definition
+//  yields 0, so the two paths are not bit-identical there; relu / relu6 differ likewise for NaN and -0.0 (fmax vs a comparison).
+//  These IEEE corner cases are recorded in DESIGN 8.12, not claimed either way.)
 U1(float,1,0) U1(float,5,0) U1(float,9,1) U1(float,4,2) U1(double,3,0) U1(double,5,1) U1(double,2,2)
 B1(int,1,0) B1(int,3,0) B1(int,4,1) B1(int,5,2) B1(int,9,0) B1(float,1,0) B1(float,4,0) B1(float,5,1) B1(float,7,2) B1(float,9,0) B1(double,1,0) B1(double,3,1) B1(double,5,0)
 B2(int,2,5,2,5,1,5) B2(int,2,5,1,5,2,5) B2(int,2,5,2,1,2,5) B2(int,2,5,2,5,2,1) B2(int,2,5,1,1,2,5) B2(int,2,5,2,5,1,1) B2(int,2,5,2,1,1,5) B2(int,3,4,1,4,3,1) B2(float,2,5,2,1,1,5) B2(float,2,5,1,1,2,5)
